@@ -723,9 +723,132 @@ pub struct Smoke {
     /// with `symlink`: the link stays as it is and the file it points to is edited in place
     #[serde(default)]
     pub edit_target_in_place: bool,
+    /// 0: the scenario below; 1: refresh-rate scenario (`smoke_rates`); 2: the process's stderr is a pipe nobody reads
+    #[serde(default)]
+    pub scenario: u8,
+}
+
+/// Refresh-rate scenario on the real clock (the polling loop itself is not reachable through the single-step hook):
+/// start at 2 s, switch to 100 ms, and from then on a valid change must arrive quickly - also right after a poll
+/// that reported an unparsable file; finally switch to 1 h, after which nothing may be applied any more.
+/// Every timed step is published right after a poll is known to have happened and is repeated up to three times;
+/// only three slow answers in a row count (a single slow answer may be the machine, not the library).
+fn smoke_rates(c: &Smoke, obs: &mut Obs) -> CaseResult {
+    let dir = Path::new(&c.dir);
+    let path = dir.join("log4rs.yml");
+    let sink = Arc::new(Mutex::new(vec![]));
+    let built = Arc::new(AtomicUsize::new(0));
+    let mut des = Deserializers::default();
+    des.insert("probe", ProbeDeserializer { sink: sink.clone(), built: built.clone() });
+    let text = |v: u8, rate: &str| variant_text(v, None, false).replace("appenders:\n  p:", &format!("refresh_rate: {}\nappenders:\n  p:", rate));
+    let publish = |content: &str| std::fs::write(&path, content).unwrap();
+    publish(&text(0, "2s"));
+    log4rs::init_file(&path, des).map_err(|e| Failure { sig: "C15:init_file".into(), msg: e.to_string() })?;
+    let tag_now = |sink: &Arc<Mutex<Vec<(String, String)>>>| -> Option<String> {
+        sink.lock().unwrap().clear();
+        log::error!(target: "x", "probe");
+        let t = sink.lock().unwrap().first().map(|x| x.0.clone());
+        t
+    };
+    // time until `want` is active (None: not within 30 s)
+    let wait_for = |want: &str| -> Option<Duration> {
+        let start = std::time::Instant::now();
+        while start.elapsed() < Duration::from_secs(30) {
+            if tag_now(&sink).as_deref() == Some(want) {
+                return Some(start.elapsed());
+            }
+            std::thread::sleep(Duration::from_millis(5));
+        }
+        None
+    };
+    ensure!(tag_now(&sink).as_deref() == Some("v0"), "C15:init_file", "initial configuration not active");
+    let limit = Duration::from_millis(1000);
+    // variants cycle through 1..=4 (0 is the start); the tag tells them apart from their predecessor
+    let mut v = 0u8;
+    let mut next = || {
+        v = v % 4 + 1;
+        v
+    };
+    let k = next();
+    publish(&text(k, "100ms"));
+    ensure!(wait_for(&format!("v{}", k)).is_some(), "C15:valid-change-not-applied:reloader-thread", "a valid change (new routing, refresh_rate 2s -> 100ms) was not applied within 30 s");
+    // one more change without a time limit: the new rate has been in force for at least one poll afterwards
+    let k = next();
+    std::thread::sleep(Duration::from_millis(150));
+    publish(&text(k, "100ms"));
+    ensure!(wait_for(&format!("v{}", k)).is_some(), "C15:valid-change-not-applied:reloader-thread", "a valid change was not applied within 30 s");
+    // 1. with 100 ms in force a change arrives quickly
+    let mut slow = vec![];
+    for _ in 0..3 {
+        let k = next();
+        std::thread::sleep(Duration::from_millis(150));
+        publish(&text(k, "100ms"));
+        match wait_for(&format!("v{}", k)) {
+            None => return fail("C15:stopped-polling", "a valid change was not applied within 30 s"),
+            Some(d) if d > limit => slow.push(d),
+            Some(_) => {
+                slow.clear();
+                break;
+            }
+        }
+    }
+    ensure!(slow.is_empty(), "C15:refresh-rate-not-applied", "the file changed its refresh rate from 2 s to 100 ms and the change was applied, but three later edits (each made 150 ms after a poll) took {:?} to arrive: the reloader still polls at the old rate", slow);
+    obs.sub_evals += 1;
+    // 2. a poll that reports an unparsable file changes nothing about the rate
+    for _ in 0..3 {
+        std::thread::sleep(Duration::from_millis(150));
+        publish("{{{ garbage");
+        std::thread::sleep(Duration::from_millis(400));
+        let k = next();
+        publish(&text(k, "100ms"));
+        match wait_for(&format!("v{}", k)) {
+            None => return fail("C15:stopped-polling", "after an unparsable file a valid change was not applied within 30 s (the reloader must keep polling)"),
+            Some(d) if d > limit => slow.push(d),
+            Some(_) => {
+                slow.clear();
+                break;
+            }
+        }
+    }
+    ensure!(slow.is_empty(), "C15:refresh-rate-lost-after-error", "refresh rate 100 ms (applied from the file, start-up rate was 2 s); after a poll that found the file unparsable, three repaired versions took {:?} to arrive: the last good configuration's refresh rate is no longer in force", slow);
+    obs.sub_evals += 1;
+    // 3. a much longer rate is honoured as well: after switching to 1 h nothing is polled for the next seconds
+    let k = next();
+    std::thread::sleep(Duration::from_millis(150));
+    publish(&text(k, "1h"));
+    ensure!(wait_for(&format!("v{}", k)).is_some(), "C15:stopped-polling", "a valid change (refresh_rate 100ms -> 1h) was not applied within 30 s");
+    let k2 = next();
+    std::thread::sleep(Duration::from_millis(300));
+    publish(&text(k2, "100ms"));
+    let t0 = std::time::Instant::now();
+    while t0.elapsed() < Duration::from_millis(2600) {
+        let tag = tag_now(&sink);
+        ensure!(tag.as_deref() == Some(&format!("v{}", k)[..]), "C15:refresh-rate-not-applied", "the file set refresh_rate to 1 h and that version was applied; an edit made 300 ms later was picked up after {:?} all the same: the new rate is not in force (active: {:?})", t0.elapsed(), tag);
+        std::thread::sleep(Duration::from_millis(20));
+    }
+    obs.sub_evals += 1;
+    obs.nontrivial = true;
+    obs.class("smoke:refresh-rate-scenario");
+    Ok(())
 }
 
 pub fn smoke_child(c: &Smoke, obs: &mut Obs) -> CaseResult {
+    if c.scenario == 1 {
+        return smoke_rates(c, obs);
+    }
+    if c.scenario == 2 {
+        // stderr becomes the write end of a pipe whose read end is closed: every write to it fails with EPIPE
+        // (a supervisor that went away, `2>&1 | head`); reporting an error there must not end the reloader
+        unsafe {
+            let mut fds = [0i32; 2];
+            if libc::pipe(fds.as_mut_ptr()) == 0 {
+                libc::dup2(fds[1], 2);
+                libc::close(fds[0]);
+                libc::close(fds[1]);
+            }
+        }
+        obs.class("smoke:stderr-is-a-broken-pipe");
+    }
     let dir = Path::new(&c.dir);
     let path = dir.join("log4rs.yml");
     let sink = Arc::new(Mutex::new(vec![]));
@@ -792,7 +915,7 @@ pub fn smoke_child(c: &Smoke, obs: &mut Obs) -> CaseResult {
 
 pub fn check_smoke(tmp: &Path, mode: u8, obs: &mut Obs) -> CaseResult {
     let dir = scratch(tmp, "c15smoke");
-    let out = call_child(tmp, "c15smoke", &Smoke { dir: dir.display().to_string(), symlink: mode >= 1, edit_target_in_place: mode == 2 }, &[], Duration::from_secs(150));
+    let out = call_child(tmp, "c15smoke", &Smoke { dir: dir.display().to_string(), symlink: mode == 1 || mode == 2, edit_target_in_place: mode == 2, scenario: if mode == 3 { 1 } else if mode == 4 { 2 } else { 0 } }, &[], Duration::from_secs(300));
     let _ = std::fs::remove_dir_all(&dir);
     if let Some(f) = &out.failure {
         if f.sig == "INCONCLUSIVE" {
@@ -830,7 +953,8 @@ pub fn run(run: &Run) {
     }
     // three smoke cases through the real init_file: in-place edits, a re-pointed symbolic link, a symbolic link whose
     // target is edited in place
-    for mode in 0u8..3 {
+    // ... plus the refresh-rate scenario (mode 3) and a process whose stderr is a broken pipe (mode 4)
+    for mode in 0u8..5 {
         if run.worker.0 == mode as u32 % run.worker.1 {
             let t3 = tmp.clone();
             run.eval_one("reloader-smoke", &mode, &move |k: &u8, o: &mut Obs| check_smoke(&t3, *k, o));
@@ -866,7 +990,7 @@ pub fn replay(part: &str, case: serde_json::Value) -> Option<CaseResult> {
 pub fn meta() -> EvidenceMeta {
     EvidenceMeta {
         level: "exploration",
-        rule: "part swap: a family of configurations whose generation g attaches m_g (1-5, neighbours differ) tagged capture appenders to the root in generated declaration orders; 1-6 logging threads x 200-1500 records with unique ids against 1-2 reconfiguring threads stepping through the family as fast as they can, plus 0-2 threads that call set_config and then log themselves; oracle: no panic; every record id is delivered under exactly one generation and to exactly that generation's m_g appenders; a record logged after the thread's own set_config returned never uses an older generation. part reentrant (exhaustive): an appender at every fan-out position 0..m-1 calls Handle::set_config from inside append: the record in flight completes entirely under the old configuration, the next one uses the new one. part reloader (guarded single-step API, real ConfigReloader::run_once): histories of 1-12 file edits between polls (valid variants that differ in routing, touch, nop, four kinds of garbage, deletion, recreation, same-mtime-different-bytes, refresh-rate change/removal; mtimes set explicitly) against a model of the statement; the active configuration is observed behaviourally (probe records through a custom 'probe' appender kind registered in Deserializers, which also counts rebuilds); plus one real-time smoke case of init_file with refresh_rate 20ms in a child process (timeout = inconclusive). Reloader edits include a valid document plus a byte that is not UTF-8 (unreadable: reported, last good kept). Three smoke cases through the real init_file (in-place edits; a symbolic link re-pointed atomically; a symbolic link whose target is edited in place): a valid change not applied within 30 s at refresh_rate 20 ms is a violation. non-trivial = >= 3 generations observed (swap); every reentrant case; a valid change after a bad file, a rate change or a touch (reloader)".into(),
+        rule: "part swap: a family of configurations whose generation g attaches m_g (1-5, neighbours differ) tagged capture appenders to the root in generated declaration orders; 1-6 logging threads x 200-1500 records with unique ids against 1-2 reconfiguring threads stepping through the family as fast as they can, plus 0-2 threads that call set_config and then log themselves; oracle: no panic; every record id is delivered under exactly one generation and to exactly that generation's m_g appenders; a record logged after the thread's own set_config returned never uses an older generation. part reentrant (exhaustive): an appender at every fan-out position 0..m-1 calls Handle::set_config from inside append: the record in flight completes entirely under the old configuration, the next one uses the new one. part reloader (guarded single-step API, real ConfigReloader::run_once): histories of 1-12 file edits between polls (valid variants that differ in routing, touch, nop, four kinds of garbage, deletion, recreation, same-mtime-different-bytes, refresh-rate change/removal; mtimes set explicitly) against a model of the statement; the active configuration is observed behaviourally (probe records through a custom 'probe' appender kind registered in Deserializers, which also counts rebuilds); plus one real-time smoke case of init_file with refresh_rate 20ms in a child process (timeout = inconclusive). Reloader edits include a valid document plus a byte that is not UTF-8 (unreadable: reported, last good kept). Three smoke cases through the real init_file (in-place edits; a symbolic link re-pointed atomically; a symbolic link whose target is edited in place): a valid change not applied within 30 s at refresh_rate 20 ms is a violation; a fourth with the process's stderr turned into a broken pipe (error reports fail with EPIPE); a fifth on refresh rates (2 s -> 100 ms: later edits arrive within 1 s, also right after a poll that found the file unparsable; -> 1 h: nothing is applied for the next 2.6 s; each timed step is made right after a poll and repeated three times, only three slow answers in a row count). non-trivial = >= 3 generations observed (swap); every reentrant case; a valid change after a bad file, a rate change or a touch (reloader)".into(),
         assumptions: vec![
             "OS scheduler not controlled: swaps between two specific instructions of Log::log are hit statistically (volume) - the re-entrant plans place the swap deterministically at every fan-out position".into(),
             "liveness of the reloader thread: single-step API plus one bounded real-time smoke case".into(),
